@@ -220,6 +220,7 @@ class Discharger:
     def __init__(self, prog):
         self.prog = prog
         self._sym = {}
+        self._lift = {}
         self._comp_ok = None
 
     def sym(self, fn):
@@ -299,6 +300,20 @@ class Discharger:
                 return self._interval(fn, t, "add") or self._affine(fn, S, facts, mops, "add")
             if msg == "BoundsCheck":
                 ln, ix = S.val(mops[0]), S.val(mops[1])
+                if fn.kind == "Closure" and getattr(fn, "owner", None) is not None:
+                    # inside a closure: see the index and the collection in the creator's terms (captures, combinator argument)
+                    L = self._lifted(fn)
+                    if L is not None:
+                        ln, ix = L.lift(ln), L.lift(ix)
+                        facts = L.facts_at(site.block)
+                        S = L.S
+                        bs = self._bsearch_same_slice(L.owner, S, ln, ix)
+                        if bs:
+                            return bs
+                else:
+                    bs = self._bsearch_same_slice(fn, S, ln, ix)
+                    if bs:
+                        return bs
                 cl, ci = _const(ln), _const(ix)
                 if cl is not None and ci is not None and 0 <= ci < cl:
                     return ("CONST-INDEX", "constant index %d < constant length %d" % (ci, cl))
@@ -518,10 +533,32 @@ class Discharger:
             for (e, truth, g) in facts:
                 if truth is False and e.endswith("::is_empty(%s)" % coll):
                     return ("LEN-DOM", "index 0 dominated by !is_empty() in bb%d" % g)
-        # BSEARCH-IDX: ix is the Ok payload of binary_search* on the same slice
-        m = re.match(r"call@(\d+):.*binary_search[a-z_]*@Ok\.0$", ix) or re.match(r"call@(\d+):.*binary_search.*", ix)
-        if m and ("@Ok" in ix):
-            return ("BSEARCH-IDX", "index is the Ok payload of a binary search (in-bounds by contract)")
+        return None
+
+    def _lifted(self, closure):
+        from ..lib import lifted_closures
+        owner = closure.owner if not isinstance(closure.owner, str) else self.prog.fns.get(closure.owner)
+        if owner is None:
+            return None
+        key = owner.id
+        if key not in self._lift:
+            self._lift[key] = {L.fn.id: L for L in lifted_closures(self.prog, owner, self.sym(owner))}
+        return self._lift[key].get(closure.id)
+
+    def _bsearch_same_slice(self, fn, S, ln, ix):
+        """BSEARCH-IDX: ix is the Ok payload of a binary_search* call in fn whose receiver is the very slice being indexed"""
+        m = re.fullmatch(r"call@(\d+):.*binary_search[a-z_]*@Ok\.0", ix)
+        ml = re.fullmatch(r"\(PtrMetadata (.*)\)", ln)
+        if not (m and ml):
+            return None
+        t = fn.blocks[int(m.group(1))]["term"]
+        if t["t"] != "call" or "binary_search" not in (t.get("callee") or ""):
+            return None
+
+        def norm(x):
+            return re.sub(r"[&*]", "", x)
+        if norm(S.val(t["args"][0])) == norm(ml.group(1)):
+            return ("BSEARCH-IDX", "index is the Ok payload of a binary search over the same slice (in-bounds by contract)")
         return None
 
     def comp_invariant(self):
